@@ -5,6 +5,7 @@ import (
 	"github.com/beevik/etree"
 	"hash/fnv"
 	"net/url"
+	"reflect"
 	"strings"
 
 	"github.com/crewjam/saml"
@@ -99,4 +100,16 @@ var algURIs = []string{
 	"http://www.w3.org/2006/12/xml-c14n11", "http://www.w3.org/2000/09/xmldsig#enveloped-signature", "http://www.w3.org/TR/1999/REC-xpath-19991116", "http://www.w3.org/TR/1999/REC-xslt-19991116", "http://www.w3.org/2000/09/xmldsig#base64",
 	// not identifiers at all
 	"", " ", "sha384", "SHA-384", "urn:unknown:alg", "http://www.w3.org/2001/04/xmldsig-more#SHA384", "http://www.w3.org/2001/04/xmldsig-more#sha384 ", "#sha384",
+}
+
+// reconfigure copies every exported field of fresh into live (both pointers to the same struct type) and leaves unexported
+// fields alone: the long-lived object gets a new configuration the way an application would assign it, and whatever the
+// library remembers privately from earlier use stays in place.
+func reconfigure(live, fresh any) {
+	lv, fv := reflect.ValueOf(live).Elem(), reflect.ValueOf(fresh).Elem()
+	for i := 0; i < lv.NumField(); i++ {
+		if lv.Type().Field(i).IsExported() && lv.Field(i).CanSet() {
+			lv.Field(i).Set(fv.Field(i))
+		}
+	}
 }
